@@ -126,6 +126,8 @@ class Interp:
                 raise OutOfFragment('field %s not modelled at %s' % (m, fn.loc(n)))
             if n.get('mk') == 'method':
                 return ('boundmethod', base, n)
+            if isinstance(base, tuple) and len(base) == 2 and n.get('member') in ('first', 'second') and isinstance(base[0], tuple) and base[0] and base[0][0] in ('mapit', 'setit', 'it') and isinstance(base[1], bool):
+                return base[0] if n['member'] == 'first' else base[1]      # the (iterator, inserted) pair an insertion returns
             raise OutOfFragment('member access %s on non-object at %s' % (n.get('member'), fn.loc(n)))
         if k == 'UnaryOperator':
             op = n['op']
@@ -896,6 +898,11 @@ class Interp:
                     o.clear()
                     return None
                 raise OutOfFragment('map operation %s at %s' % (last, fn.loc(n)))
+        if k == 'CXXOperatorCallExpr' and n.get('op') == '=' and cs.startswith(('std::__detail::_Node_iterator', 'std::_Rb_tree_iterator', 'std::_Rb_tree_const_iterator', '__gnu_cxx::__normal_iterator', 'std::_List_iterator')) and len(n.get('args', [])) == 2:
+            v = self.eval(fn, S[n['args'][1]], env)       # an iterator variable is reassigned
+            if isinstance(v, tuple):
+                self.assign(fn, S[n['args'][0]], v, env)
+                return v
         if k == 'CXXOperatorCallExpr' and n.get('op') == '=' and cs.startswith(('std::optional::', 'std::variant::')) and len(n.get('args', [])) == 2:
             v = self.eval(fn, S[n['args'][1]], env)       # optionals and variants are modelled by their content
             self.assign(fn, S[n['args'][0]], v, env)
